@@ -560,8 +560,13 @@ pub fn generate_skip(seed: u64, n: usize, emit: &mut dyn FnMut(String)) {
 			bytes.extend_from_slice(&[0xAA, 0x55, 0x01]);
 			let hint = skip_hint(&mut rng, &schema, 0, 0);
 			let backend = if rng.gen_bool(0.5) { Backend::Slice } else { random_backend(&mut rng, bytes.len()) };
+			// one reader in three keeps a small allocation cap: the cap is per field read, so whatever
+			// the full read accepts the read that ignores parts accepts too (an ignored block or
+			// field, whatever its size, is not a field read)
 			let backend = match backend {
-				Backend::Reader { last, sched, .. } => Backend::Reader { last, sched, max_alloc: 512 * 1024 * 1024 },
+				Backend::Reader { last, sched, max_alloc } => {
+					Backend::Reader { last, sched, max_alloc: if rng.gen_range(0..3) == 0 { max_alloc.max(4) } else { 512 * 1024 * 1024 } }
+				}
 				b => b,
 			};
 			let mut w = W::default();
